@@ -207,7 +207,9 @@ def finish(prop, spec, results, bounded, tier, seed, t0, verbose=False, partial=
             defects.append((b['name'], (b.get('error') or '') + ' ' + (b.get('stderr') or '')[-1500:]))
         for f in b.get('failures', []):
             cls = f.get('class')
-            if cls in known_ids:
+            if cls in known_ids or (cls and is_open(cls)):
+                # the stand-in classifies a failing case by the witness class of a listed finding; a stand-in shared between properties
+                # (the store conformance runs under C02/C03/C06/C08/C13) meets the same listed defect whatever property it runs under
                 known_hits.append((cls, {'name': b['name'], 'bounded': True, 'case': f}))
             else:
                 bviol.append((b, f))
